@@ -103,7 +103,7 @@ package sync
 //@   ensures cancelSeen == (old(cancelSeen) || result1)
 
 //@ func (d *EVMDownloader) reportBlocks (d, downloadedCh, blocks, lastFinalizedBlock)
-//@   props C05
+//@   props C05 C06
 //@   requires d != nil && d.log != nil
 //@   requires forall(k, 0, len(blocks), blocks[k] != nil)
 //@   modifies region("chan:aggkit/sync.EVMBlock.sent"), region("chan:aggkit/sync.EVMBlock.nsent"), region("aggkit/sync.EVMBlock.IsFinalizedBlock"), coveredTo
@@ -111,6 +111,10 @@ package sync
 // everything sent before
 //@   ensures[every-block-sent-once-in-order] nsent(downloadedCh) == old(nsent(downloadedCh)) + len(blocks) && forall(i, old(nsent(downloadedCh)), nsent(downloadedCh), sentAt(downloadedCh, i).Num == blocks[i - old(nsent(downloadedCh))].Num)
 //@   ensures[earlier-sends-untouched] forall(i, 0, old(nsent(downloadedCh)), sentAt(downloadedCh, i) == old(sentAt(downloadedCh, i)))
+// a block handed on as finalized is not tracked by the reorg detector (C06): the mark is given only at or below the
+// finalized block the caller passes
+//@   ensures[marked-finalized-only-at-or-below-the-finalized-block] forall(i, old(nsent(downloadedCh)), nsent(downloadedCh), sentAt(downloadedCh, i).IsFinalizedBlock ==> sentAt(downloadedCh, i).Num <= lastFinalizedBlock)
+//@   loop 0 invariant forall(i, old(nsent(downloadedCh)), nsent(downloadedCh), sentAt(downloadedCh, i).IsFinalizedBlock ==> sentAt(downloadedCh, i).Num <= lastFinalizedBlock)
 //@   loop 0 invariant 0 <= rangeindex + 1 && rangeindex + 1 <= len(blocks) && nsent(downloadedCh) == old(nsent(downloadedCh)) + rangeindex + 1 && forall(i, old(nsent(downloadedCh)), nsent(downloadedCh), sentAt(downloadedCh, i).Num == blocks[i - old(nsent(downloadedCh))].Num)
 //@   loop 0 invariant forall(i, 0, old(nsent(downloadedCh)), sentAt(downloadedCh, i) == old(sentAt(downloadedCh, i)))
 //@   set coveredTo := ite(len(blocks) > 0 && blocks[len(blocks) - 1].Num > old(coveredTo), blocks[len(blocks) - 1].Num, old(coveredTo))
@@ -118,19 +122,23 @@ package sync
 //@   loop 0 invariant d != nil && d.log != nil && forall(k, 0, len(blocks), blocks[k] != nil)
 
 //@ func (d *EVMDownloader) reportEmptyBlock (d, ctx, downloadedCh, blockNum, lastFinalizedBlock)
-//@   props C05
+//@   props C05 C06
 //@   requires d != nil && d.log != nil && d.EVMDownloaderInterface != nil
 //@   requires[marker-only-after-the-scan] blockNum < scanNext
 //@   modifies region("chan:aggkit/sync.EVMBlock.sent"), region("chan:aggkit/sync.EVMBlock.nsent"), coveredTo, cancelSeen
 //@   ensures[one-marker-for-that-block-unless-cancelled] (cancelSeen && nsent(downloadedCh) == old(nsent(downloadedCh))) || (nsent(downloadedCh) == old(nsent(downloadedCh)) + 1 && sentAt(downloadedCh, old(nsent(downloadedCh))).Num == blockNum)
 //@   ensures[earlier-sends-untouched] forall(i, 0, old(nsent(downloadedCh)), sentAt(downloadedCh, i) == old(sentAt(downloadedCh, i)))
 //@   ensures[cancellation-is-sticky] old(cancelSeen) ==> cancelSeen
+//@   ensures[marked-finalized-only-at-or-below-the-finalized-block] nsent(downloadedCh) == old(nsent(downloadedCh)) + 1 ==> (sentAt(downloadedCh, old(nsent(downloadedCh))).IsFinalizedBlock ==> blockNum <= lastFinalizedBlock)
 //@   set coveredTo := ite(!cancelSeen && blockNum > old(coveredTo), blockNum, old(coveredTo))
 //@   ensures[marker-covers-its-block-unless-cancelled] cancelSeen || coveredTo >= blockNum
 //@   ensures[covered-never-shrinks] coveredTo >= old(coveredTo)
 
 //@ func (d *EVMDownloader) Download (d, ctx, fromBlock, downloadedCh)
-//@   props C05
+//@   props C05 C06
+// the finalized block the reports are marked against is never above the one the node just reported (C06)
+//@   assert call:reportBlocks arg3 <= bigval(lastFinalizedBlock.Number)
+//@   assert call:reportEmptyBlock arg4 <= bigval(lastFinalizedBlock.Number)
 //@   requires d != nil && d.log != nil && d.EVMDownloaderInterface != nil
 //@   requires scanNext == fromBlock && !scanGap && fromBlock < 9223372036854775808 && d.syncBlockChunkSize < 4294967296
 //@   requires coveredTo + 1 == fromBlock && !cancelSeen && fromBlock <= chainTip + 1
@@ -225,6 +233,9 @@ package sync
 // back is the node's answer (A8: it is the header of the number asked for); the fetch is abandoned - which the callers
 // read as "stop" - only when the node's client reported context.Canceled, never for another failure
 //@ ghost var hdrLastErrCanceled bool
+// lastHdrNum / lastHdrHash: the number asked for and the hash of the header handed back by the last header fetch (ghost)
+//@ ghost var lastHdrNum int
+//@ ghost var lastHdrHash Hash
 //@ interface github.com/agglayer/aggkit/types.BaseEthereumClienter.HeaderByNumber@sync.(*EVMDownloaderImplementation).GetBlockHeader (self, ctx, number)
 //@   requires number != nil
 //@   modifies hdrLastErrCanceled
@@ -233,9 +244,11 @@ package sync
 //@ func (d *EVMDownloaderImplementation) GetBlockHeader (d, ctx, blockNum)
 //@   props C05
 //@   requires d != nil && d.ethClient != nil && d.log != nil && d.rh != nil
-//@   modifies hdrCancelled, hdrLastErrCanceled
+//@   modifies hdrCancelled, hdrLastErrCanceled, lastHdrNum, lastHdrHash
 //@   set hdrCancelled := result1
-//@   ensures[outcome-recorded] hdrCancelled == result1
+//@   set lastHdrNum := blockNum
+//@   set lastHdrHash := result0.Hash
+//@   ensures[outcome-recorded] hdrCancelled == result1 && lastHdrNum == blockNum && lastHdrHash == result0.Hash
 //@   ensures[the-header-of-the-block-asked-for] !result1 ==> result0.Num == blockNum
 //@   ensures[abandoned-only-when-the-context-was-cancelled] result1 ==> hdrLastErrCanceled
 //@   assert call:HeaderByNumber arg1 != nil && bigval(arg1) == blockNum
@@ -246,10 +259,16 @@ package sync
 //@   requires b != nil
 //@   modifies b.Events
 
+// lastAppendOK: the last call of a per-topic appender succeeded (ghost, observed at the call)
+//@ ghost var lastAppendOK bool
+//@ interface functype:func(*github.com/agglayer/aggkit/sync.EVMBlock,github.com/ethereum/go-ethereum/core/types.Log)error@sync.(*EVMDownloaderImplementation).getEventsByBlockRangeWithRetry (b, l)
+//@   requires b != nil
+//@   modifies b.Events, lastAppendOK
+//@   ensures lastAppendOK == (result == nil)
 //@ func (d *EVMDownloaderImplementation) getEventsByBlockRangeWithRetry (d, ctx, fromBlock, toBlock, retryCount)
 //@   props C05
 //@   requires d != nil && d.ethClient != nil && d.log != nil && d.rh != nil && d.appender != nil
-//@   modifies heap, qFrom, qTo, okQueries, lastQueryErrCancelled, ctxEnded, hdrCancelled
+//@   modifies heap, qFrom, qTo, okQueries, lastQueryErrCancelled, ctxEnded, hdrCancelled, lastHdrNum, lastHdrHash, lastAppendOK
 // a range that could not be fetched is answered with nil, which the download loop cannot tell from "no events": that
 // answer is only acceptable when the caller's context has ended (the loop is about to stop)
 //@   ensures[no-answer-only-when-the-context-ended] result == nil ==> (ctxEnded || hdrCancelled)
@@ -259,6 +278,13 @@ package sync
 // every log is decoded into the block that carries the log's own number and hash (given that the node answers in block
 // order with one hash per block number, A8)
 //@   assert call:dyn arg0 != nil && arg0.Num == arg1.BlockNumber && arg0.Hash == arg1.BlockHash
+// a block is started only from a header whose hash is the hash the log carries: an iteration that starts a new block
+// has just fetched the header of that number and found that very hash (otherwise the whole range is fetched again)
+// every log of the answer is decoded exactly once: the log loop moves on to the next log only after a successful call of
+// the log's appender, and the appender is called again only after a failed one
+//@   loop 0 step lastAppendOK
+//@   loop 1 step !lastAppendOK
+//@   loop 0 step latestBlock != old(latestBlock) ==> (latestBlock != nil && latestBlock.Num == lastHdrNum && latestBlock.Hash == lastHdrHash)
 //@   loop 0 invariant d != nil && d.ethClient != nil && d.log != nil && d.rh != nil && d.appender != nil && 0 <= rangeindex + 1 && off(blocks) == 0 && ref(blocks) != 0
 //@   loop 0 invariant rangeindex + 1 <= len(logs) && forall(j, 0, len(logs) - 1, logs[j].BlockNumber <= logs[j+1].BlockNumber) && forall(j, 0, len(logs), forall(i, 0, len(logs), logs[j].BlockNumber == logs[i].BlockNumber ==> logs[j].BlockHash == logs[i].BlockHash))
 //@   loop 0 invariant (latestBlock != nil) == (rangeindex >= 0) && (latestBlock != nil ==> latestBlock.Num == logs[rangeindex].BlockNumber && latestBlock.Hash == logs[rangeindex].BlockHash)
